@@ -84,6 +84,7 @@ type ex6Tx struct {
 }
 
 type ex6Op struct {
+	writeFailed bool // a WriteTo of this operation failed (expired write deadline)
 	kind           string // solicit, request, rapid
 	invSeq, retSeq int
 	invT, retT     time.Duration
@@ -191,6 +192,12 @@ func (st *ex6State) start() {
 		st.net = NewNet(s)
 		st.cconn = NewConn(s, "cconn", &net.UDPAddr{IP: net.ParseIP("fe80::1"), Port: 546})
 		st.cconn.OnWrite = func(b []byte, to net.Addr) { st.clientTx(b) }
+		st.cconn.OnWriteFail = func([]byte, net.Addr) {
+			s.Fault("write-deadline-expired")
+			if st.cur != nil {
+				st.cur.writeFailed = true
+			}
+		}
 		st.cconn.OnRead = func(d dgram, n int) {
 			if len(d.b) <= 1500 {
 				n = len(d.b) // judged as on the wire (see clientcore.go onRead)
@@ -758,7 +765,7 @@ func (st *ex6State) oracle(v *vio) {
 		}
 		// a failing exchange fails because nothing acceptable arrived: no-response error, after
 		// the configured number of transmissions of the message it was waiting on
-		if o.returned && o.err != nil && len(sol)+len(req) > 0 {
+		if o.returned && o.err != nil && len(sol)+len(req) > 0 && !o.writeFailed {
 			phase := sol
 			if len(req) > 0 {
 				phase = req
